@@ -471,6 +471,34 @@ def b2mSuccs (u : Nat) (bits : List String) (umap : List (Nat × Int)) : List Na
     let rs ← b2mSuccs u bits umap rest
     return r :: rs
 
+/-- BDD side of one iteration of the main loop for the kept node `u`: the integer variable
+owning its level, and the MDD references of the cofactors for each integer value -/
+def b2mIntSucc (bitToVar : List (String × MVar)) (u : Nat) (umap : List (Nat × Int)) :
+    M (MVar × List Int) := do
+  let mb ← M.get
+  let n ← M.ofOption .key (mb.tbl.succ[u]?)
+  let bit ← varAtLevel (n.lvl : Int)
+  let var ← M.ofOption .key (lastLookup bit bitToVar)
+  let intSucc ← b2mSuccs u var.bits umap (List.range (2 ^ var.bits.length))
+  return (var, intSucc)
+
+/-- the main loop `for u, i, v, w in bdd.levels(skip_terminals=True)` -/
+def b2mLoop (rm : List Nat) (bitToVar : List (String × MVar)) :
+    List Nat → MddMgr → List (Nat × Int) → M B2MOut
+  | [], mdd, umap => fun mb => (.ok ⟨mdd, umap⟩, mb)
+  | u :: rest, mdd, umap => fun mb =>
+    -- ignore function ?
+    if rm.contains u then b2mLoop rm bitToVar rest mdd umap mb else
+    match b2mIntSucc bitToVar u umap mb with
+    | (.error e, mb1) => (.error e, mb1)
+    | (.ok (var, intSucc), mb1) =>
+      -- add new MDD node at level j
+      match mFindOrAdd (var.level : Int) intSucc mdd with
+      | (.error e, _) => (.error e, mb1)
+      | (.ok r, mdd') =>
+        -- `umap[u] = r`
+        b2mLoop rm bitToVar rest mdd' ((u, r) :: umap.filter (fun p => p.1 ≠ u)) mb1
+
 /-- `bdd_to_mdd(bdd, dvars)`; `levRec` is the recorded order of `bdd.levels(...)` -/
 def bddToMdd (dvars : List MVar) (levRec : Option (List Nat)) : M B2MOut := do
   -- map from bits to integers (later entries of the dict update win)
@@ -489,7 +517,7 @@ def bddToMdd (dvars : List MVar) (levRec : Option (List Nat)) : M B2MOut := do
     (dedup order.reverse).reverse.map fun b => (b, (((lastLookup b bitToSort).getD 0 : Nat) : Int))
   reorder (some orderDict)
   -- BDD -> MDD
-  let mut mdd := MddMgr.new (some dvars)
+  let mdd := MddMgr.new (some dvars)
   -- zones of bits per integer var
   let mut zones : List (String × Nat × Nat) := []
   for d in dvars do
@@ -525,23 +553,7 @@ def bddToMdd (dvars : List MVar) (levRec : Option (List Nat)) : M B2MOut := do
       rm := rm ++ [u]
   -- build layer by layer
   assertConsistent
-  let mut umap : List (Nat × Int) := [(1, 1)]
   let ord ← liftE (bddLevelsOrder t levRec)
-  for u in ord do
-    -- ignore function ?
-    if rm.contains u then continue
-    let mb ← M.get
-    let n ← M.ofOption .key (mb.tbl.succ[u]?)
-    let bit ← varAtLevel (n.lvl : Int)
-    let var ← M.ofOption .key (lastLookup bit bitToVar)
-    let intSucc ← b2mSuccs u var.bits umap (List.range (2 ^ var.bits.length))
-    -- add new MDD node at level j
-    match mFindOrAdd (var.level : Int) intSucc mdd with
-    | (.error e, _) => M.throw e
-    | (.ok r, mdd') =>
-      mdd := mdd'
-      -- dict update
-      umap := (u, r) :: umap.filter (fun p => p.1 ≠ u)
-  return ⟨mdd, umap⟩
+  b2mLoop rm bitToVar ord mdd [(1, 1)]
 
 end DD
